@@ -1003,7 +1003,7 @@ class Facts:
                 return lo, hi
         return None, None
 
-    def sign(self, r: RF) -> str:
+    def sign(self, r: RF, _depth: int = 0) -> str:
         """one of '0', '>0', '>=0', '<0', '<=0', '?'"""
         if r.is_zero():
             return "0"
@@ -1017,7 +1017,23 @@ class Facts:
                 return s if q > 0 else _flip(s)
         sn = self._poly_sign(r.num)
         sd = self._poly_sign(r.den)
-        return _mul_sign(sn, _inv_sign(sd))
+        out = _mul_sign(sn, _inv_sign(sd))
+        if out != "?" or _depth >= 2:
+            return out
+        # r = fact * q  with q of known sign
+        for fr, s in self._facts():
+            if fr.is_zero():
+                continue
+            try:
+                q = r / fr
+            except ZeroDivisionError:
+                continue
+            if len(q.num) + len(q.den) >= len(r.num) + len(r.den):
+                continue
+            sq = self.sign(q, _depth + 1)
+            if sq != "?":
+                return _mul_sign(s, sq)
+        return "?"
 
     def _poly_sign(self, p) -> str:
         # a polynomial matching a fact
